@@ -106,7 +106,7 @@ def rmw_of(body):
 
 
 def extract_ts(docs, notes):
-    f = {"ts_global_static": False, "ts_global_atomic": False, "ts_value_atomic": False, "ts_value_init_next": False,
+    f = {"ts_global_static": False, "ts_global_atomic": False, "ts_global_const_init": False, "ts_value_atomic": False, "ts_value_init_next": False,
          "ts_default_ctor_defaulted": False, "ts_next": "ROther", "ts_copy_ctor_inits_value": True,
          "ts_renew": ["TUnknown"], "ts_copy_ctor": ["TUnknown"], "ts_move_ctor": ["TUnknown"],
          "ts_copy_assign": ["TUnknown"], "ts_move_assign": ["TUnknown"], "ts_conv_returns_value": False}
@@ -127,6 +127,15 @@ def extract_ts(docs, notes):
                     f["ts_default_ctor_defaulted"] = c.get("explicitlyDefaulted") == "default"
                 if c.get("kind") == "CXXMethodDecl" and c.get("name") == "nextValue" and c.get("storageClass") != "static":
                     notes.append("nextValue is not static")
+            continue
+        if k == "VarDecl" and nm == "global" and d.get("type", {}).get("qualType", "") in atomic:
+            # the out-of-class definition: std::atomic<size_t> TimeStamp::global{0};
+            ini = [unwrap(ex(x)) for x in inner(d) if not x.get("kind", "").endswith("Comment")]
+            ok = (not ini) or ini[0] in (("int", "0"),) or (ini[0][0] == "int") or ini[0] == ("initlist",) \
+                or (ini[0][0] == "construct" and len(ini[0]) == 2) or (ini[0][0] == "initlist" and len(ini[0]) == 2 and ini[0][1][0] == "int")
+            f["ts_global_const_init"] = bool(ok)
+            if not ok:
+                notes.append("initialiser of TimeStamp::global: %r" % (ini,))
             continue
         b = stmts(body_of(d)) if k in ("CXXMethodDecl", "CXXConstructorDecl", "CXXConversionDecl") else None
         if b is None:
@@ -298,8 +307,8 @@ def coq_text(ts, tbl, of):
     L = ["(* GENERATED by props/C19/factgen.py from the working tree - do not edit, not under version control. *)",
          "From Coq Require Import List NArith.", "From C19 Require Import Model FactsDefs.", "Import ListNotations.", ""]
     lst = lambda l: "[" + "; ".join(l) + "]"     # noqa: E731
-    L.append("Definition gen_ts : tsfacts :=\n  mkTs %s %s %s %s %s %s %s\n       %s %s %s\n       %s %s %s." % (
-        coq_bool(ts["ts_global_static"]), coq_bool(ts["ts_global_atomic"]), coq_bool(ts["ts_value_atomic"]),
+    L.append("Definition gen_ts : tsfacts :=\n  mkTs %s %s %s %s %s %s %s %s\n       %s %s %s\n       %s %s %s." % (
+        coq_bool(ts["ts_global_static"]), coq_bool(ts["ts_global_atomic"]), coq_bool(ts.get("ts_global_const_init")), coq_bool(ts["ts_value_atomic"]),
         coq_bool(ts["ts_value_init_next"]), coq_bool(ts["ts_default_ctor_defaulted"]), ts["ts_next"],
         coq_bool(ts["ts_copy_ctor_inits_value"]), lst(ts["ts_renew"]), lst(ts["ts_copy_ctor"]), lst(ts["ts_move_ctor"]),
         lst(ts["ts_copy_assign"]), lst(ts["ts_move_assign"]), coq_bool(ts["ts_conv_returns_value"])))
@@ -328,6 +337,14 @@ def main(argv):
     docs_b = sxast.dump(a.repo, a.work, INST, "Observable", "c19_inst")
     docs_o = sxast.dump(a.repo, a.work, INST, "Observer", "c19_inst")
     ts = extract_ts(docs_ts, notes)
+    # second opinion from the compiler: does TimeStamp.cpp need a global constructor (dynamic initialisation)?
+    import subprocess
+    p = subprocess.run(["clang++", "-std=c++11", "-fsyntax-only", "-Wglobal-constructors", "-I" + a.repo, "-I" + a.work,
+                        os.path.join(a.repo, "rkcommon/utility/TimeStamp.cpp")], stdout=subprocess.PIPE, stderr=subprocess.STDOUT,
+                       universal_newlines=True, timeout=120)
+    if p.returncode != 0 or "global constructor" in p.stdout:
+        ts["ts_global_const_init"] = False
+        notes.append("TimeStamp.cpp: " + ([l for l in p.stdout.splitlines() if "global constructor" in l or "error" in l] or [p.stdout[-300:]])[0][:300])
     tbl, of = extract_obs(docs_b, docs_o, notes)
     text = coq_text(ts, tbl, of)
     if a.out:
